@@ -422,7 +422,7 @@ func gen(r *prng.R, f proto.Flags, emit func(proto.Case)) {
 	}
 	nb, rounds, ns := 30, 60, 300
 	if f.Tier == "thorough" {
-		nb, rounds, ns = 200, 200, 5000
+		nb, rounds, ns = 100, 150, 2500
 	}
 	emit(proto.Case{ID: "pm0", Ops: []string{"pcfg quota=1 winsec=0 size=1 ttlsec=1 t0=5", "preq id=0 key=0 p=0"}})
 	emit(proto.Case{ID: "pm1", Ops: []string{"pcfg quota=1 winsec=1 size=1 ttlsec=1 t0=1500000000", "preq id=0 key=0 p=0",
